@@ -22,6 +22,7 @@ func init() {
 			ruleDeliverAfterJoin(c, d)
 			c.Clause("C01-D4")
 			ruleResponses(c, d)
+			ruleBatchFlagChain(c, d)
 			c.Clause("C01-D5")
 			ruleSendWholeMessages(c)
 			ruleBareObject(c)
@@ -45,6 +46,7 @@ func init() {
 			}
 			c.Clause("C03-D1/D4")
 			ruleSingleDispatcher(c, d)
+			ruleNoWaitInDispatchLoop(c, d)
 			c.Clause("C03-D2/D3")
 			ruleNullIsAbsent(c, d)
 			ruleBarrier(c, d)
@@ -64,6 +66,7 @@ func init() {
 				return
 			}
 			c.Clause("C06")
+			ruleNoWaitInDispatchLoop(c, d)
 			ruleSemaphore(c, d)
 			ruleBuiltinThroughInvoke(c)
 		},
